@@ -1,5 +1,6 @@
 """C12 - sparse kernels: concurrency-structure clauses (E5). Values (A*X = Y, Schur identities) are NOT decided."""
 import e5_locks, e17_schur, e31_decomp
+import e33_scans
 
 LEVEL = 'other'
 EXPLANATION = ('Guard live-range dataflow + call-graph reachability on the MIR of yui_matrix::sparse::{triang,schur,decomp}: '
@@ -21,6 +22,8 @@ def in_scope(b):
 
 def run(ctx, rep):
     facts = ctx.facts()
+    rep.rule('E33', e33_scans.__doc__.strip().split('\n')[0])
+    e33_scans.run_for(facts, rep, 'decomp', ['yui_matrix::sparse::decomp'], 1)
     import fixtures
     fixtures.run_controls(rep, ['E5'], lambda: ctx.reload())
     rep.rule('E5', e5_locks.__doc__.strip().split('\n')[0])
